@@ -10,7 +10,7 @@ from props.C06 import describe, rules
 
 REQUIRED_THEOREMS = ['Usid.C19.sidpy_coords', 'Usid.C19.image_pixels', 'Usid.C19.array_rejected_before_file',
                      'Usid.C19.array_valid_iff', 'Usid.C19.array_layout', 'Usid.C19.unfixed_reshape_counterexample']
-RULE = ('[also: dimension / axis values that are not increasing, lazy inputs in several chunks, dtype= / compression= keyword arguments, verbose=True] three families. ARRAY: generator datasets through ArrayTranslator as numpy or dask arrays, dimension lists given '
+RULE = ('[also: an extra dataset holding an integer that single precision cannot represent, element kinds of the stored extras observed] [also: dimension / axis values that are not increasing, lazy inputs in several chunks, dtype= / compression= keyword arguments, verbose=True] three families. ARRAY: generator datasets through ArrayTranslator as numpy or dask arrays, dimension lists given '
         'fastest first (or a bare Dimension), with/without parameter dictionaries and extra datasets (lists, arrays, '
         'dask arrays), a pre-existing file at the output path or none, and one (sometimes two) invalidities out of: '
         'non-string argument, data that is not an array / not 2D, dimension lists of the wrong type or whose sizes do not '
@@ -217,7 +217,8 @@ def _array_args(inp):
     extras, e_desc = None, []
     if inp['extras']:
         extras = {}
-        items = [('Extra_A', np.arange(6).reshape(2, 3)), ('note_list', [5, 6, 7])]
+        # (a time stamp that single precision cannot hold: the extra datasets are not the main dataset)
+        items = [('Extra_A', np.array([0, 1, 2, 3, 4, 16777217]).reshape(2, 3)), ('note_list', [5, 6, 7])]
         if inp['extras'] == 'dask':
             items.append(('Lazy', da.from_array(np.arange(4), chunks=2)))
         if 'extra_reserved' in bad:
@@ -279,6 +280,7 @@ def _run_array(inp, work):
             out['extras'] = {k: np.asarray(chan[k][()]).ravel().astype(int).tolist() for k in chan.keys()
                              if k not in ANC + ['Raw_Data']}
             out['extra_shapes'] = {k: list(chan[k].shape) for k in chan.keys() if k not in ANC + ['Raw_Data']}
+            out['extra_dtypes'] = {k: chan[k].dtype.kind for k in chan.keys() if k not in ANC + ['Raw_Data']}
     return out
 
 
@@ -331,11 +333,13 @@ def _oracle_array(inp, obs):
         fails.append('coordinates: elements are not stored under their input coordinates%s' % tag)
     want_extras = {}
     if inp['extras']:
-        want_extras = {'Extra_A': list(range(6)), 'note_list': [5, 6, 7]}
+        want_extras = {'Extra_A': [0, 1, 2, 3, 4, 16777217], 'note_list': [5, 6, 7]}
         if inp['extras'] == 'dask':
             want_extras['Lazy'] = list(range(4))
     if obs['extras'] != want_extras or (inp['extras'] and obs['extra_shapes'].get('Extra_A') != [2, 3]):
         fails.append('extras: stored %s, supplied %s%s' % (obs['extras'], want_extras, tag))
+    elif any(k != 'i' for k in obs.get('extra_dtypes', {}).values()):
+        fails.append('extras-dtype: integer extra datasets stored with element kinds %s%s' % (obs['extra_dtypes'], tag))
     return fails
 
 
